@@ -813,3 +813,42 @@ fire('sweep-is-literal', ['C06', 'C09'], 'SWEEP.COMPARISON-TRAPS',
 fire('sweep-loop-rebinds-parameter', ['C08'], 'SWEEP.PARAM-NOT-REBOUND-BY-LOOP',
      (LAB, 'Lab.uncache_tasks', "        for task in tasks:\n            if self.is_cached(task):\n                task._lt.cache.delete(self._storage, task)",
       "        for tasks in [tasks]:\n            pass\n        for task in tasks:\n            if self.is_cached(task):\n                task._lt.cache.delete(self._storage, task)"))
+
+
+# -- round-4 obligations ----------------------------------------------------------------------------------------------------
+CACHE = 'labtech/cache.py'
+STOR = 'labtech/storage.py'
+fire('r4-process-global-registry', ['C04', 'C05', 'C16'], 'SUPPORT.NO-PROCESS-GLOBAL-STATE',
+     (PROC, None, "class ProcessRunner(Runner, ABC):", "_RUNNERS_SEEN: dict = {}\n\n\nclass ProcessRunner(Runner, ABC):"),
+     (PROC, 'ProcessRunner.__init__', "        self.results_map: dict[Task, TaskResult] = {}", "        self.results_map: dict[Task, TaskResult] = {}\n        _RUNNERS_SEEN[id(self)] = self"))
+silent('r4-module-constant-table-read-only', ['C04', 'C05', 'C16'],
+       (PROC, None, "class ProcessRunner(Runner, ABC):", "_LEVELS: dict = {'stdout': 'info', 'stderr': 'error'}\n\n\nclass ProcessRunner(Runner, ABC):"),
+       note='a module-level table nobody writes to is not state')
+fire('r4-storage-memo', ['C08', 'C03', 'C06'], 'C08.STORAGE-STATELESS',
+     (STOR, 'LocalStorage.exists', "        return key_path.exists()", "        self._last_seen = key\n        return key_path.exists()"))
+fire('r4-handle-dropped', ['C12', 'C13'], 'C12.HANDLE-CLOSED-IN-SCOPE',
+     (CACHE, 'PickleCache.save_result', "        data_file = storage.file_handle(task.cache_key, self.RESULT_FILENAME, mode='wb')\n        with data_file:\n            pickle.dump(result, data_file, protocol=self.pickle_protocol)",
+      "        data_file = storage.file_handle(task.cache_key, self.RESULT_FILENAME, mode='wb')\n        pickle.dump(result, data_file, protocol=self.pickle_protocol)"))
+fire('r4-narrow-clause-before-rollback', ['C12', 'C13'], 'C12.ROLLBACK-COVER',
+     (CACHE, 'BaseCache.save', "        except BaseException:\n", "        except OSError as ex:\n            raise CacheError(str(ex)) from ex\n        except BaseException:\n"))
+silent('r4-narrow-clause-rolls-back-itself', ['C12', 'C13'],
+       (CACHE, 'BaseCache.save', "        except BaseException:\n", "        except OSError:\n            storage.delete(task.cache_key)\n            raise\n        except BaseException:\n"))
+fire('r4-parent-ignores-sigint', ['C14', 'C11'], 'C14.WHO-MAY-SET-SIGNALS',
+     (PROC, 'ProcessExecutor._start_processes', "            process.start()", "            previous = signal.signal(signal.SIGINT, signal.SIG_IGN)\n            process.start()\n            signal.signal(signal.SIGINT, previous)"))
+fire('r4-submit-before-start', ['C14', 'C04'], 'C14.START-BEFORE-SUBMIT',
+     (LAB, 'TaskCoordinator.run', "                            state.start_task(task)\n", ""),
+     (LAB, 'TaskCoordinator.run', "                                use_cache=self.use_cache(task),\n                            )\n", "                                use_cache=self.use_cache(task),\n                            )\n                            state.start_task(task)\n"))
+fire('r4-rollback-converts-interrupt', ['C14'], 'C14.KI-TRANSPARENT',
+     (CACHE, 'BaseCache.save', "            storage.delete(task.cache_key)\n            raise", "            storage.delete(task.cache_key)\n            raise CacheError('save failed')"))
+fire('r4-batch-extended-before-release', ['C17'], 'C17.RELEASE-CALLED',
+     (LAB, 'TaskCoordinator.run', "                runner.remove_results(tasks_with_removable_results)", "                tasks_with_removable_results.add(task)\n                runner.remove_results(tasks_with_removable_results)"))
+fire('r4-queue-handler-prepare-override', ['C19'], 'C19.WORKER-LOG-SETUP',
+     (PROC, None, "class ProcessRunner(Runner, ABC):", "class _RawQueueHandler(QueueHandler):\n    def prepare(self, record):\n        return record\n\n\nclass ProcessRunner(Runner, ABC):"),
+     (PROC, 'ProcessRunner._subprocess_func', "logger.addHandler(QueueHandler(log_queue))", "logger.addHandler(_RawQueueHandler(log_queue))"))
+silent('r4-queue-handler-plain-subclass', ['C19'],
+       (PROC, None, "class ProcessRunner(Runner, ABC):", "class _TaskQueueHandler(QueueHandler):\n    \"\"\"Marker subclass.\"\"\"\n\n\nclass ProcessRunner(Runner, ABC):"),
+       (PROC, 'ProcessRunner._subprocess_func', "logger.addHandler(QueueHandler(log_queue))", "logger.addHandler(_TaskQueueHandler(log_queue))"))
+fire('r4-fromkeys-shared-dict', ['C20'], 'SWEEP.SHARED-MUTABLE-FILL',
+     ('labtech/diagram.py', 'TaskStructure.build', "        task_structure = cls()\n", "        task_structure = cls()\n        task_structure.task_type_to_rels = dict.fromkeys([type(task) for task in tasks], {})\n"))
+fire('r4-pickled-lt-altered', ['C15', 'C04'], 'C15.STATE-CLEAN',
+     ('labtech/tasks.py', '_task__getstate__', "'_lt': self._lt,", "'_lt': None,"))
